@@ -106,6 +106,47 @@ def canon_attr(expr):
     return f"{wrap} ?{e}"
 
 
+def twin_defaults_part(viol):
+    shape = lambda n, mode, ratio, flag: {"type": "object", "properties": {"n": {"type": "integer", "default": n}, "mode": {"type": "string", "default": mode},
+                                                                          "ratio": {"type": "number", "default": ratio}, "flag": {"type": "boolean", "default": flag}}}
+    spec = {"openapi": "3.1.0", "info": {"title": "t", "version": "1"}, "paths": {}, "components": {"schemas": {
+        "Pipeline": {"type": "object", "properties": {"primary": shape(3, "fast", 0.5, True), "fallback": shape(10, "safe", 2.5, False)}},
+        "Other": {"type": "object", "properties": {"tuning": shape(7, "mid", 1.5, True)}}}}}
+    d = vlib.scratch("C17t")
+    sp = os.path.join(d, "spec.json")
+    json.dump(spec, open(sp, "w"))
+    outp = os.path.join(d, "out.rs")
+    rc, txt = vlib.oas(["generate", "types", "-i", sp, "-o", outp, "-q", "--all-schemas", "--no-helpers"])
+    if rc != 0:
+        viol.append(({"twin": True}, f"twin-defaults spec: generation failed {txt[-200:]}"))
+        return 0
+    ar = arena.Arena("C17t")
+    ar.add_case(0, outp)
+    ar.write_main('''fn main() {
+    let p: case_0::Pipeline = serde_json::from_str(r#"{"primary":{},"fallback":{}}"#).unwrap();
+    println!("{}", serde_json::to_string(&p).unwrap());
+    let o: case_0::Other = serde_json::from_str(r#"{"tuning":{}}"#).unwrap();
+    println!("{}", serde_json::to_string(&o).unwrap());
+}
+''')
+    ok, diags, err = ar.cargo("build")
+    if not ok:
+        viol.append(({"twin": True}, f"twin-defaults spec does not compile: {(diags[0]['message'] if diags else err)[:200]}"))
+        return 0
+    rc, outp_, errp = ar.run("")
+    lines = outp_.strip().split("\n")
+    want = [{"primary": {"n": 3, "mode": "fast", "ratio": 0.5, "flag": True}, "fallback": {"n": 10, "mode": "safe", "ratio": 2.5, "flag": False}},
+            {"tuning": {"n": 7, "mode": "mid", "ratio": 1.5, "flag": True}}]
+    for w, l in zip(want, lines + ["null"] * 2):
+        try:
+            got = json.loads(l)
+        except Exception:
+            got = l
+        if got != w:
+            viol.append(({"twin": True, "spec": spec}, f"inline objects of the same shape with different defaults: decoding empty members yields {json.dumps(got)}, the schemas' defaults are {json.dumps(w)}"))
+    return 2
+
+
 def main(tier, seed, replay=None):
     res = Result("C17", tier, seed)
     vlib.build_repo()
@@ -124,8 +165,9 @@ def main(tier, seed, replay=None):
         for required in (False, True):
             for how in (True, "single"):
                 # const / single-value enum, also as the ONLY value-carrying member and required
-                cases.append({"type": "string" if isinstance(d, str) else "int", "tschema": {"type": "string"} if isinstance(d, str) else {"type": "integer"},
-                              "prim": "string" if isinstance(d, str) else "i64", "kind": "str" if isinstance(d, str) else "int", "d": d, "required": required, "builders": False, "const": how})
+                for builders in (False, True):
+                    cases.append({"type": "string" if isinstance(d, str) else "int", "tschema": {"type": "string"} if isinstance(d, str) else {"type": "integer"},
+                                  "prim": "string" if isinstance(d, str) else "i64", "kind": "str" if isinstance(d, str) else "int", "d": d, "required": required, "builders": builders, "const": how})
     cases.append({"type": "int8", "tschema": {"type": "integer", "format": "int8"}, "prim": "i8", "kind": "int", "d": 300, "required": False, "builders": False, "const": False})
     if replay:
         cases = [json.load(open(replay))["case"]]
@@ -222,7 +264,10 @@ fn main() {
             for how, v in obs.items():
                 same = (v == exp) or (isinstance(exp, (int, float)) and isinstance(v, (int, float)) and not isinstance(v, bool) and float(v) == float(exp))
                 if not same:
-                    if how == "builder" and obs["Default::default()"] == exp:
+                    if how == "builder" and c.get("const") and c["required"]:
+                        # a required const / single-value member is not an Option and carries #[builder(default = ..)]
+                        viol.append((c, f"member {c['type']} {'const' if c['const'] is True else 'single-value enum'} {d!r} required=True: {how} yields m={v!r}"))
+                    elif how == "builder" and obs["Default::default()"] == exp:
                         known_hits.add("builder-ignores-defaults")
                     elif c["prim"] == "other":
                         known_hits.add("default-replaced-by-type-default")
@@ -230,7 +275,9 @@ fn main() {
                         known_hits.add("builder-ignores-defaults")
                     else:
                         viol.append((c, f"member {c['type']} default {d!r} required={c['required']}: {how} yields m={v!r}"))
-    res.counts.update({"evaluations": len(cases), "distinct_nontrivial": n_obs, "traces_validated_against_impl": len(cases),
+    # ---- two inline objects of the same shape whose members carry DIFFERENT defaults (they must not share a type)
+    n_twin = twin_defaults_part(viol)
+    res.counts.update({"evaluations": len(cases), "twin_default_observations": n_twin, "distinct_nontrivial": n_obs, "traces_validated_against_impl": len(cases),
                        "exhaustive": True,
                        "rule": "exhaustive over 11 member types x default values of every JSON type (matching, string-encoded, null) x {required, optional} x {builders on, off} (+ const and single-value enum members, required and optional; int8 overflow): #[default(..)] expression read back with syn vs the extracted coercion model; every case compiled in the arena and observed three ways: decode of {} , T::default(), T::builder().build()"})
     for c in cases[:2] + cases[60:62]:
